@@ -22,18 +22,36 @@ type graph struct {
 	ExtIn  int      `json:"ext_in"`
 	ExtOut int      `json:"ext_out"`
 	Links  []int    `json:"links"` // per internal input (construction order) -1 or internal output index
+	// IOFirst: the external inputs and outputs are created before the processors (both orders are legal
+	// through the API and through bondmachine's CLI; the endpoint lists then come in a different order)
+	IOFirst bool `json:"io_first,omitempty"`
 }
 
 func (g graph) String() string {
-	return fmt.Sprintf("procs=%v in=%d out=%d links=%v", g.Shapes, g.ExtIn, g.ExtOut, g.Links)
+	o := ""
+	if g.IOFirst {
+		o = " io-first"
+	}
+	return fmt.Sprintf("procs=%v in=%d out=%d links=%v%s", g.Shapes, g.ExtIn, g.ExtOut, g.Links, o)
 }
 
-// build through the real API. Construction order: processors first, then external inputs, then
+// build through the real API. Construction order: processors first (or last, IOFirst), external inputs, then
 // external outputs; returns the machine plus consumer/producer endpoint names in Links order.
 func (g graph) build() (*bondmachine.Bondmachine, []string, []string, error) {
 	b := new(bondmachine.Bondmachine)
 	b.Rsize = 8
 	b.Init()
+	addIO := func() {
+		for i := 0; i < g.ExtIn; i++ {
+			b.Add_input()
+		}
+		for i := 0; i < g.ExtOut; i++ {
+			b.Add_output()
+		}
+	}
+	if g.IOFirst {
+		addIO()
+	}
 	for _, sh := range g.Shapes {
 		ops := []string{"j", "nop"}
 		if sh[0] > 0 {
@@ -54,11 +72,8 @@ func (g graph) build() (*bondmachine.Bondmachine, []string, []string, error) {
 		b.Domains = append(b.Domains, m)
 		b.Add_processor(len(b.Domains) - 1)
 	}
-	for i := 0; i < g.ExtIn; i++ {
-		b.Add_input()
-	}
-	for i := 0; i < g.ExtOut; i++ {
-		b.Add_output()
+	if !g.IOFirst {
+		addIO()
 	}
 	cons := b.List_internal_inputs()
 	prods := b.List_internal_outputs()
@@ -245,6 +260,9 @@ func enumGraphs(shapes [][2]int, extIn, extOut int, emit func(graph)) {
 	rec = func(i int) {
 		if i == ncons {
 			emit(graph{Shapes: shapes, ExtIn: extIn, ExtOut: extOut, Links: append([]int{}, links...)})
+			if extIn+extOut > 0 {
+				emit(graph{Shapes: shapes, ExtIn: extIn, ExtOut: extOut, Links: append([]int{}, links...), IOFirst: true})
+			}
 			return
 		}
 		for l := -1; l < nprod; l++ {
